@@ -165,27 +165,27 @@ Definition unquote (s : bytes) : option bytes :=
   | _ => None
   end.
 
-(** strings.Replace(s, old, new, -1) for a non-empty [old] *)
-Fixpoint replace_all_fuel (fuel : nat) (old new s : bytes) : bytes :=
-  match fuel with
-  | O => s
-  | S f =>
-    match s with
-    | [] => []
-    | c :: t =>
-      if has_prefix old s then new ++ replace_all_fuel f old new (skipn (length old) s)
-      else c :: replace_all_fuel f old new t
-    end
+(** unquoteLiteral's loop over the text between the delimiting quotes: an escaped apostrophe becomes
+    an apostrophe, every other backslash pair is copied, a bare double quote gets a backslash *)
+Fixpoint norm_lit (s : bytes) : bytes :=
+  match s with
+  | [] => []
+  | c :: t =>
+    if c =? 92 then
+      match t with
+      | n :: t' => if n =? 39 then 39 :: norm_lit t' else 92 :: n :: norm_lit t'
+      | [] => [92]
+      end
+    else if c =? 34 then 92 :: 34 :: norm_lit t
+    else c :: norm_lit t
   end.
-Definition replace_all (old new s : bytes) : bytes := replace_all_fuel (S (length s)) old new s.
 
-(** the Literal action: c.text -> (value, ok) *)
+(** the Literal action (unquoteLiteral): c.text -> (value, ok) *)
 Definition literal_value (text : bytes) : option bytes :=
   match text with
-  | 39 :: _ =>
+  | _ :: _ :: _ =>
     let inner := firstn (length text - 2) (skipn 1 text) in
-    let intermediate := replace_all [92; 39] [39] inner in
-    unquote ([34] ++ replace_all [34] [92; 34] intermediate ++ [34])
+    unquote ([34] ++ norm_lit inner ++ [34])
   | _ => unquote text
   end.
 
@@ -443,7 +443,3 @@ Definition new_scope_prefix (prefix : bytes) : (bytes * list bytes) + bytes :=
   | Some v => inr v
   | None => inl (prefix, vars)
   end.
-
-(** the Prefix action's argument: strings.TrimSpace(strings.TrimPrefix(text, "prefix")) *)
-Definition prefix_text (text : bytes) : bytes :=
-  trim_space (trim_prefix [112; 114; 101; 102; 105; 120] text).
